@@ -5,9 +5,11 @@ import (
 	"reflect"
 
 	"github.com/kstenerud/go-concise-encoding/ce"
+	"github.com/kstenerud/go-concise-encoding/configuration"
 
 	"verifsim/eq"
 	"verifsim/gen"
+	"verifsim/rec"
 	"verifsim/simio"
 )
 
@@ -158,6 +160,17 @@ func runC09(e *Env) Outcome {
 		}
 		e.Count("documents_x_templates", 1)
 		var model *mnode
+		if gdoc == nil && ti == 1 {
+			// typed template of a marshaled value: the model comes from the
+			// document's own event list (decoded, then re-encoded to get the
+			// offset after every event; used only if that reproduces the bytes)
+			if vdoc := eventsOf(e, doc, f, cfg); vdoc != nil {
+				model = buildModel(vdoc)
+			}
+			if model == nil {
+				e.Count("model_not_applicable", 1)
+			}
+		}
 		if gdoc != nil {
 			model = buildModel(gdoc)
 			if model == nil {
@@ -231,7 +244,7 @@ func runC09(e *Env) Outcome {
 				}
 				if ok, why := eq.Prefix(part, full); !ok {
 					fail("not-a-prefix", fmt.Sprintf("cut at %d of %d: partial value is not a prefix of the full value: %s", k, len(doc), why))
-				} else if model != nil && ti == 0 {
+				} else if model != nil {
 					if ok, why := checkComplete(model, reflect.ValueOf(part), reflect.ValueOf(full), k, f == gen.CTE, "$"); !ok {
 						fail("incomplete-prefix", fmt.Sprintf("cut at %d of %d: %s", k, len(doc), why))
 					}
@@ -264,6 +277,29 @@ func insideQuotes(doc []byte, k int) bool {
 }
 
 func isBlank(b byte) bool { return b == ' ' || b == '\n' || b == '\t' || b == '\r' }
+
+// eventsOf returns the event list of a document with the encoder offset after
+// each event, obtained by decoding it and encoding the events again; nil if
+// that does not reproduce the document byte for byte.
+func eventsOf(e *Env, doc []byte, f gen.Format, cfg *configuration.Configuration) *gen.Doc {
+	rc := &rec.Recorder{}
+	var err error
+	p := e.Op("ref:Decoder.DecodeDocument", func() {
+		if f == gen.CBE {
+			err = ce.NewCBEDecoder(cfg).DecodeDocument(doc, rc)
+		} else {
+			err = ce.NewCTEDecoder(cfg).DecodeDocument(doc, rc)
+		}
+	})
+	if p != nil || err != nil {
+		return nil
+	}
+	d, eerr := gen.Encode(rc.Evs, f, cfg)
+	if eerr != nil || string(d.Bytes) != string(doc) {
+		return nil
+	}
+	return d
+}
 
 func endsWithCloser(doc []byte) bool {
 	if len(doc) == 0 {
